@@ -21,7 +21,7 @@ import traceback
 
 HERE = os.path.dirname(os.path.abspath(__file__))
 VERIF = os.path.dirname(HERE)
-LEAN = os.path.join(VERIF, 'lean')
+LEAN = os.environ.get('VERIF_LEAN_DIR') or os.path.join(VERIF, 'lean')
 sys.path.insert(0, HERE)
 
 import common  # noqa: E402
@@ -211,7 +211,7 @@ def load_known(pid):
 # ------------------------------------------------------------------------------------ main
 
 def write_replay(ctx, payload):
-    d = os.path.join(VERIF, 'replays')
+    d = os.path.join(os.environ.get('VERIF_OUT_DIR') or VERIF, 'replays')
     os.makedirs(d, exist_ok=True)
     path = os.path.join(d, '%s_%s_%d.json' % (ctx.pid, ctx.tier, ctx.seed))
     json.dump(payload, open(path, 'w'), indent=1, ensure_ascii=True)
@@ -224,7 +224,7 @@ def write_evidence(ctx, mod, cov, assumptions, violations):
         'coverage': cov, 'assumptions': assumptions, 'wall_s': round(time.time() - ctx.t0, 2),
         'violations': violations,
     }
-    d = os.path.join(VERIF, 'evidence')
+    d = os.path.join(os.environ.get('VERIF_OUT_DIR') or VERIF, 'evidence')
     os.makedirs(d, exist_ok=True)
     json.dump(ev, open(os.path.join(d, ctx.pid + '.json'), 'w'), indent=1, ensure_ascii=True)
 
